@@ -54,6 +54,8 @@ def documents(tier='quick'):
     docs.append(('meta-comments-postings', '2000-01-11 * "m"\n    foo: 1\n    ; c1\n    Assets:Foo  1 USD\n    ; c2\n    bar: 2\n    Assets:Bar\n'))
     docs.append(('trailing-ws', '2000-01-02 close Assets:Foo  \n2000-01-03 * "groceries" \n    Assets:Cash  1 USD \n    Assets:B\t\n2000-01-04 open Assets:X USD \n    kk: 1 \n'))
     docs.append(('claim-shift', '2000-01-01 *\n    foo: 1\n    ; c1\n    Assets:Foo  100.00 USD\n    Assets:Bar\n'))
+    docs.append(('crcrlf', '2000-01-01 open Assets:Foo\r\r\n; c\r\r\n\r\r\n2000-01-02 close Assets:Foo\r\r\n'))
+    docs.append(('crcrlf-end', '2000-01-01 open Assets:Foo\r\r\n'))
     docs.append(('org-headings', '* Heading\n** Sub\n2000-01-01 open Assets:Foo\n'))
     return docs
 
